@@ -91,7 +91,7 @@ def specs():
                  monotonicities=[None, [(0, 1)], [(0, 1), (1, 2)]],
                  kernel_initializer=["uniform", "constant"],
                  kernel_regularizer=[None, "L2OBJ"],
-                 default_input_value=[None, -1], split_outputs=[False, True]),
+                 default_input_value=[None, -1, 0], split_outputs=[False, True]),
       valid=lambda kw: True)
   S["Linear"] = dict(
       kind="layer", cls=tfl.layers.Linear, dims=3,
@@ -330,7 +330,8 @@ def _layer_input(spec, kw):
     X = np.array(list(itertools.product([0.0, 0.5, 1.0], repeat=4)), dtype=np.float32)
     return {"increasing": tf.constant(X[:, :2]), "unconstrained": tf.constant(X[:, 2:])}
   if spec.get("int_input"):
-    base = np.array([[0], [1], [2], [-1 if kw.get("default_input_value") is not None else 0]], dtype=np.int32)
+    dv = kw.get("default_input_value")
+    base = np.array([[0], [1], [2], [dv if dv is not None else 0]], dtype=np.int32)
     return tf.constant(base)
   g = [-0.5, 0.0, 0.4, 1.0, 1.7, 2.5, -1.0]
   X = np.array(list(itertools.product(g[:5], repeat=d)) if d > 1 else [[v] for v in g], dtype=np.float32)
